@@ -14,39 +14,43 @@ import (
 
 // VerifProvider is a plain-data mirror of *provider.
 type VerifProvider struct {
-	ID                  int32
-	Origin              string
-	Index               int
-	Class               string
-	Group               string
-	Flows               [5][]reflect.Type // returns, outputs, inputs, received, bypass
-	Include             bool
-	CannotInclude       string
-	WhyIncluded         string
-	DownRmap            [][2]reflect.Type
-	UpRmap              [][2]reflect.Type
-	BypassRmap          [][2]reflect.Type
-	MustZeroSkipped     []reflect.Type
-	MustZeroInner       []reflect.Type
-	VmapCount           int
-	Memoized            bool
-	Parallel            bool
-	Required            bool
-	Desired             bool
-	Shun                bool
-	Reorder             bool
-	NonFinal            bool
-	Cacheable           bool
-	MustCache           bool
-	NotCacheable        bool
-	Memoize             bool
-	Singleton           bool
-	CallsInner          bool
-	Wanted              bool
-	Cluster             int32
-	Synthetic           bool
-	Uses                []int32 // ids of the providers this one depends on (includeWorkingData.uses, in order)
-	UsedBy              []int32 // ids of the providers recorded as depending on this one (includeWorkingData.usedBy)
+	ID              int32
+	Origin          string
+	Index           int
+	Class           string
+	Group           string
+	Flows           [5][]reflect.Type // returns, outputs, inputs, received, bypass
+	Include         bool
+	CannotInclude   string
+	WhyIncluded     string
+	DownRmap        [][2]reflect.Type
+	UpRmap          [][2]reflect.Type
+	BypassRmap      [][2]reflect.Type
+	MustZeroSkipped []reflect.Type
+	MustZeroInner   []reflect.Type
+	VmapCount       int
+	Memoized        bool
+	Parallel        bool
+	Required        bool
+	Desired         bool
+	Shun            bool
+	Reorder         bool
+	NonFinal        bool
+	Cacheable       bool
+	MustCache       bool
+	NotCacheable    bool
+	Memoize         bool
+	Singleton       bool
+	CallsInner      bool
+	Wanted          bool
+	Cluster         int32
+	Synthetic       bool
+	Uses            []int32 // ids of the providers this one depends on (includeWorkingData.uses, in order)
+	UsedBy          []int32 // ids of the providers recorded as depending on this one (includeWorkingData.usedBy)
+	// UsesDetail / UsedByDetail: the same relation per flow and per type (includeWorkingData.usesDetail / usedByDetail),
+	// sorted by flow and type code; the provider ids of one entry in the order recorded
+	UsesDetail          []VerifDep
+	UsedByDetail        []VerifDep
 	Loose               []reflect.Type
 	MustConsume         []reflect.Type
 	ConsumptionOptional []reflect.Type
@@ -133,6 +137,32 @@ func verifVmap(m map[typeCode]int) map[reflect.Type]int {
 	return out
 }
 
+// VerifDep is one entry of usesDetail / usedByDetail.
+type VerifDep struct {
+	Flow int // index into Flows
+	Type reflect.Type
+	IDs  []int32
+}
+
+func verifDeps(d [lastFlowType]map[typeCode][]*provider) []VerifDep {
+	var out []VerifDep
+	for flow, m := range d {
+		tcs := make([]typeCode, 0, len(m))
+		for tc := range m {
+			tcs = append(tcs, tc)
+		}
+		sort.Slice(tcs, func(i, j int) bool { return tcs[i] < tcs[j] })
+		for _, tc := range tcs {
+			e := VerifDep{Flow: flow, Type: tc.Type()}
+			for _, p := range m[tc] {
+				e.IDs = append(e.IDs, p.id)
+			}
+			out = append(out, e)
+		}
+	}
+	return out
+}
+
 func verifProvider(fm *provider) VerifProvider {
 	if fm == nil {
 		return VerifProvider{ID: -1}
@@ -185,6 +215,8 @@ func verifProvider(fm *provider) VerifProvider {
 	for _, dep := range fm.d.usedBy {
 		vp.UsedBy = append(vp.UsedBy, dep.id)
 	}
+	vp.UsesDetail = verifDeps(fm.d.usesDetail)
+	vp.UsedByDetail = verifDeps(fm.d.usedByDetail)
 	for i := range fm.flows {
 		vp.Flows[i] = verifTypes(fm.flows[i])
 	}
